@@ -42,6 +42,11 @@ pub fn gen(prop: &str, scen: &str, _k: u64, seed: u64, tier: &str) -> Case {
                 }
             }
             case.input = random_input(&mut r_in, len, case.opt.dict);
+            if r_in.pct(3) && matches!(case.fmt.as_str(), "lzma2" | "xz") {
+                // head / > 128 KiB of noise / short tail: uncompressed chunks, then a state reset
+                case.input = simcore::case::sandwich_input(&mut r_in);
+            }
+            let len = case.input.len;
             case.wops = random_wops(&mut r_ops, len, true, 20);
             case.set("chunk_seed", (r_ops.next_u64() >> 1) as i64);
         }
@@ -84,6 +89,11 @@ pub fn gen(prop: &str, scen: &str, _k: u64, seed: u64, tier: &str) -> Case {
                 case.opt.dict = *r_opt.pick(&[4096u32, 8192, 65536, 1 << 20, 3 << 19]);
             }
             case.input = random_input(&mut r_in, len, case.opt.dict);
+            if r_in.pct(4) && matches!(case.fmt.as_str(), "xz-easy" | "xz-filters" | "xz-mt" | "lzma2-raw") {
+                // liblzma stores > 128 KiB of noise as uncompressed chunks and opens the tail with
+                // a state-reset chunk (control 0xA0 when it holds at most 64 KiB)
+                case.input = simcore::case::sandwich_input(&mut r_in);
+            }
             case.rbufs = random_rbufs(&mut r_ops);
             case.src_policy = if r_f.pct(40) { benign_policy(&mut r_f) } else { IoPolicy::default() };
         }
